@@ -47,6 +47,56 @@ fn games() -> Vec<(&'static str, Tree)> {
     ]
 }
 
+/// games for the full-view permutation pass: a player with three and more multi-action infosets,
+/// and one whose infosets list the same action names in different orders
+fn permutation_games() -> Vec<(String, Tree)> {
+    let mut res: Vec<(String, Tree)> = vec![
+        ("hidden_then_own".into(), crate::universe::hidden_then_own()),
+        ("kuhn".into(), crate::universe::kuhn()),
+        ("deep_chain_6".into(), crate::universe::deep_chain(6)),
+        ("two_level_own_chance".into(), crate::universe::two_level_own(true)),
+    ];
+    res.push((
+        "same action names in different orders".into(),
+        c(None, vec![
+            (1.0, p(0, "x", vec![("call", t(1.0)), ("fold", t(0.0))])),
+            (1.0, p(0, "y", vec![("fold", t(0.0)), ("call", t(2.0))])),
+            (1.0, p(0, "z", vec![("raise", t(0.5)), ("call", t(-1.0)), ("fold", t(0.0))])),
+            (1.0, p(1, "w", vec![("fold", p(1, "v", vec![("call", t(0.0)), ("fold", t(1.0))])), ("call", t(0.5))])),
+        ]),
+    ));
+    res
+}
+
+fn permutations(n: usize, cap: usize) -> Vec<Vec<usize>> {
+    fn rec(cur: &mut Vec<usize>, used: &mut Vec<bool>, out: &mut Vec<Vec<usize>>, cap: usize) {
+        if out.len() >= cap {
+            return;
+        }
+        if cur.len() == used.len() {
+            out.push(cur.clone());
+            return;
+        }
+        for i in 0..used.len() {
+            if !used[i] {
+                used[i] = true;
+                cur.push(i);
+                rec(cur, used, out, cap);
+                cur.pop();
+                used[i] = false;
+            }
+        }
+    }
+    let mut out = Vec::new();
+    rec(&mut Vec::new(), &mut vec![false; n], &mut out, cap);
+    // plus rotations and the reversal when the cap cut the enumeration
+    for r in 1..n {
+        out.push((0..n).map(|i| (i + r) % n).collect());
+    }
+    out.push((0..n).rev().collect());
+    out
+}
+
 const W_FULL: [f64; 11] = [1.0, 0.0, 3.0, -1.0, -0.0, 5e-324, 1e-300, 1e300, f64::NAN, f64::INFINITY, f64::NEG_INFINITY];
 const W_SMALL: [f64; 5] = [1.0, 0.0, 3.0, -1.0, f64::NAN];
 
@@ -203,7 +253,46 @@ pub fn check_case(ctx: &Ctx, game: &G, tree: &Tree, player: usize, input: &Named
     ok
 }
 
+/// complete valid views with non-uniform weights, their infoset entries in every order (all
+/// permutations up to 4 entries, 120 + rotations + reversal beyond) and each entry's actions in
+/// two orders
+fn permutation_pass(ctx: &Ctx) {
+    for (name, tree) in permutation_games() {
+        let game = match build(&tree) {
+            Ok(g) => g,
+            Err(_) => continue,
+        };
+        let infos = infosets(&tree);
+        for player in 0..2 {
+            let base: NamedInput = infos[player].iter().enumerate().map(|(k, d)| (d.name.clone(), d.actions.iter().enumerate().map(|(i, a)| (a.clone(), 1.0 + ((i + k) % 3) as f64 * 0.75)).collect())).collect();
+            if base.len() < 2 {
+                continue;
+            }
+            for perm in permutations(base.len(), 120) {
+                for flip in [false, true] {
+                    let input: NamedInput = perm
+                        .iter()
+                        .map(|i| {
+                            let (info, acts) = &base[*i];
+                            let mut acts = acts.clone();
+                            if flip {
+                                acts.reverse();
+                            }
+                            (info.clone(), acts)
+                        })
+                        .collect();
+                    check_case(ctx, &game, &tree, player, &input);
+                    ctx.case(input.len() as u64, true);
+                    ctx.count("full_view_permutations", 1);
+                }
+            }
+        }
+        let _ = name;
+    }
+}
+
 pub fn run(ctx: &Ctx) -> i32 {
+    permutation_pass(ctx);
     let entries = if ctx.thorough() { 3 } else { 2 };
     for (gname, tree) in games() {
         let game = build(&tree).expect("C14 games are valid");
